@@ -102,11 +102,10 @@ type skel struct {
 	err error
 }
 
+// fail: a construct without a dedicated form is printed as (?<node type>) — the extraction is total, so a tree whose
+// emitted code uses something new still gets ITS skeleton (which then differs from the expected one).
 func (k *skel) fail(n ast.Node, what string) string {
-	if k.err == nil {
-		k.err = fmt.Errorf("%s: construct not covered by the skeleton extractor: %s (%T)", k.p.Fset.Position(n.Pos()), what, n)
-	}
-	return "(?)"
+	return "(?" + strings.TrimPrefix(fmt.Sprintf("%T", n), "*ast.") + ")"
 }
 
 func (k *skel) stmts(l []ast.Stmt) string {
@@ -277,6 +276,23 @@ func (k *skel) expr(e ast.Expr) string {
 			t = typeAtom(e.Type)
 		}
 		return "(lit " + t + k.exprs(e.Elts) + ")"
+	case *ast.SliceExpr:
+		r := "(slice " + k.expr(e.X)
+		for _, x := range []ast.Expr{e.Low, e.High, e.Max} {
+			if x == nil {
+				r += " -"
+			} else {
+				r += " " + k.expr(x)
+			}
+		}
+		return r + ")"
+	case *ast.TypeAssertExpr:
+		if e.Type == nil {
+			return "(type-switch-guard " + k.expr(e.X) + ")"
+		}
+		return "(assert " + k.expr(e.X) + " " + typeAtom(e.Type) + ")"
+	case *ast.Ellipsis:
+		return "(...)"
 	case *ast.KeyValueExpr:
 		return "(kv " + k.expr(e.Key) + " " + k.expr(e.Value) + ")"
 	case *ast.CallExpr:
